@@ -3,7 +3,7 @@
 The yearly rule is used through its contract only: OCC(y), the local instant of the rule's occurrence in year y, with the
 interface fact YEAR-LOCAL (the occurrence of year y lies in year y -- true of every rule in the tz database: no rule
 is pushed across New Year by its weekday adjustment; a per-rule ground obligation below), which makes OCC strictly
-increasing.  For every recurrence whose years lie in -9000..9000 (or are unbounded) and every instant of those years:
+increasing.  For every recurrence whose years lie in -9997..9998 (or are unbounded) and every instant of those years:
   _next(t)             is the occurrence of the LEAST year in [from, to] whose transition instant is  > t,
   _previous_or_same(t) is the occurrence of the GREATEST year in [from, to] whose transition instant is <= t,
 stated with an arbitrary ghost year g: the result lies on the right side of t, no candidate year beats it, and it IS the
@@ -26,7 +26,7 @@ ZR = "pyoda_time.time_zones._zone_recurrence:_ZoneRecurrence."
 I = z3.IntSort()
 OCC = z3.Function("RULE_OCCURRENCE_NS", I, I)  # local nanoseconds of the rule's occurrence in year y
 INT_MIN, INT_MAX = -(2**31), 2**31 - 1
-YLO, YHI = -9000, 9000
+YLO, YHI = -9997, 9998  # the last year, 9999, is where occurrences may fall off the end of time: it is reached from 9998
 R_ = "_ZoneRecurrence__"
 
 
@@ -166,7 +166,9 @@ def _(c):
         finite = V.inv_instant_valid(ins)
         parts = {
             "offset": V.off_seconds(off) == so(a) + sv(a),
-            "marker": Implies(Not(finite), And(V.is_after_max(ins), Implies(And(a.g >= YLO, a.g <= YHI), Not(cand)))),
+            # an end-of-time marker only when no year has a representable transition after t (year 9999's occurrence may
+            # itself lie beyond the last instant once shifted by the rule offset)
+            "marker": Implies(Not(finite), And(V.is_after_max(ins), Implies(And(a.g >= YLO, a.g <= YHI + 1, trans_ns(a, a.g) < (V.INSTANT_MAX_DAYS + 1) * V.NPD), Not(cand)))),
             "after": Implies(finite, n > t(a)),
             "least": Implies(And(finite, cand), n <= trans_ns(a, a.g)),
             "is-occurrence": Implies(And(finite, _year_of_is(a, local, a.g)), And(local == occ(a.g), in_rec(a, a.g))),
@@ -193,7 +195,7 @@ def _(c):
         finite = V.inv_instant_valid(ins)
         parts = {
             "offset": V.off_seconds(off) == so(a) + sv(a),
-            "marker": Implies(Not(finite), And(V.is_before_min(ins), Implies(And(a.g >= YLO, a.g <= YHI), Not(cand)))),
+            "marker": Implies(Not(finite), And(V.is_before_min(ins), Implies(And(a.g >= YLO - 1, a.g <= YHI, trans_ns(a, a.g) >= V.INSTANT_MIN_DAYS * V.NPD), Not(cand)))),
             "before": Implies(finite, n <= t(a)),
             "greatest": Implies(And(finite, cand), n >= trans_ns(a, a.g)),
             "is-occurrence": Implies(And(finite, _year_of_is(a, local, a.g)), And(local == occ(a.g), in_rec(a, a.g))),
